@@ -166,6 +166,17 @@ func TestWorker(t *testing.T) {
 		return
 	}
 
+	if os.Getenv("VERIF_ONCE") != "" || (envInt("VERIF_START", 0) == 0 && sc.Once != nil && os.Getenv("VERIF_REPLAY") == "") {
+		if sc.Once != nil {
+			o := sc.Once(os.Getenv("VERIF_TIER"))
+			rec := &runOut{Idx: -1, Prop: prop, Viol: o.Viol, Probes: o.Probes, Sample: o.Sample, Nontrivial: false, Hash: "once"}
+			enc.Encode(rec)
+			w.Flush()
+		}
+		if os.Getenv("VERIF_ONCE") != "" {
+			return
+		}
+	}
 	seed := uint64(envInt("VERIF_SEED", 1))
 	start := envInt("VERIF_START", 0)
 	count := envInt("VERIF_COUNT", 100)
